@@ -106,6 +106,8 @@ class sint(metaclass=_Meta):
             return x
         if isinstance(x, _FloatView):
             return x.s
+        if isinstance(x, symx.SymStr):
+            return x.sym
         return builtins.int(x, *a)
 
 
